@@ -46,6 +46,9 @@ def cases(draw):
     varkw = draw(st.booleans())
     jobinfo = draw(st.sampled_from(["none", "none", "kwonly", "default"]))
     params = []   # (name, kind, default)
+    nonly = draw(st.integers(0, 2)) if draw(st.booleans()) else 0
+    for i in range(nonly):
+        params.append([f"o{i}", "ponly", None])        # positional-only (before the '/' marker)
     for i in range(npos):
         params.append([f"p{i}", "pos", None])
     for i in range(ndef):
@@ -60,7 +63,7 @@ def cases(draw):
         params.append(["info", "infokw", None])
     if varkw:
         params.append(["kw", "varkw", None])
-    named = [p[0] for p in params if p[1] in ("pos", "def", "kwonly", "var")]
+    named = [p[0] for p in params if p[1] in ("ponly", "pos", "def", "kwonly", "var")]
     config = draw(st.lists(st.sampled_from(named), unique=True, max_size=2)) if named else []
     kwonly_names = [p[0] for p in params if p[1] == "kwonly"]
     if var and kwonly_names and draw(st.booleans()):
@@ -69,7 +72,9 @@ def cases(draw):
     call = {"pos": [], "kw": {}, "extra_pos": [], "extra_kw": {}}
     by_kw_allowed = True
     for name, kind, default in params:
-        if kind == "pos":
+        if kind == "ponly":
+            call["pos"].append(draw(val))
+        elif kind == "pos":
             how = draw(st.sampled_from(["pos", "kw"])) if by_kw_allowed else "kw"
             if how == "pos":
                 call["pos"].append(draw(val))
@@ -105,8 +110,13 @@ def make_task(case, variant=0):
 
     parts = []
     seen_star = False
-    for name, kind, default in case["params"]:
-        if kind == "pos":
+    last_only = max([i for i, p in enumerate(case["params"]) if p[1] == "ponly"], default=-1)
+    for idx_, (name, kind, default) in enumerate(case["params"]):
+        if kind == "ponly":
+            parts.append(name)
+            if idx_ == last_only:
+                parts.append("/")
+        elif kind == "pos":
             parts.append(name)
         elif kind == "def":
             parts.append(f"{name}={default!r}")
@@ -176,7 +186,7 @@ def variants(case):
     pos0, kw0 = build_call(call)
     new = V.build(case["new"])
     params = case["params"]
-    pos_names = [p[0] for p in params if p[1] in ("pos", "def")]
+    pos_names = [p[0] for p in params if p[1] in ("ponly", "pos", "def")]
     has_var = any(p[1] == "var" for p in params)
     npos_named = len(call["pos"])
     out = []
